@@ -254,29 +254,51 @@ func VerifC01E2E() {
 	var lb [binary.MaxVarintLen64]byte
 	file := append([]byte{}, lb[:binary.PutUvarint(lb[:], uint64(len(c01HeaderBody)))]...)
 	file = append(file, c01HeaderBody...)
-	slotOffs := []uint64{0, 431999}
+	// block slots: both ends of the epoch and their neighbours, rotated by the other choices
+	slotOffs := []uint64{0, 431999, 431998, 1}
 	nb := 0
+	sel := hc
 	for i, k := range kinds {
 		o := c01Obj{cid: c01Cid(i), kind: k}
 		dl := 70
 		if i < 2 { // the first transaction and the entry sweep the length boundaries
-			dl = c01E2ELens[verifChoice("datalen", nl)]
+			dc := verifChoice("datalen", nl)
+			sel += dc
+			dl = c01E2ELens[dc]
 		} else if k != iplddecoders.KindTransaction && k != iplddecoders.KindBlock && k != iplddecoders.KindEpoch {
 			dl = 40 + 37*(i%11) + i
 		}
 		o.payload = append([]byte{0x86, byte(k), byte(i)}, verifBytes("payload", dl-3)...)
 		switch k {
 		case iplddecoders.KindBlock:
-			o.slot = c01E2EEpoch*432000 + slotOffs[nb%2]
+			o.slot = c01E2EEpoch*432000 + slotOffs[(sel+nb)%len(slotOffs)]
 			o.blocktime = verifI64("blocktime")
 			nb++
 		case iplddecoders.KindTransaction:
-			// compact-u16 signature count, then the signatures: the first transaction has any count
-			// in 1..127 (one byte), later ones 129 (two bytes)
+			// compact-u16 (short_vec) signature count, then the signatures. First transaction: any
+			// count of every encoding width: 1 byte = 1..127, 2 bytes = 128..16383, 3 bytes =
+			// 16384..65535 (count bytes symbolic, minimal encodings); later ones: 129.
 			if i == 0 {
-				verifAssume(o.payload[3] >= 1)
-				verifAssume(o.payload[3] <= 0x7f)
-				copy(o.sig[:], o.payload[4:68])
+				w := 1 + sel%3
+				if verifParam("allwidths", 0) == 1 {
+					w = 1 + verifChoice("sigCountWidth", 3)
+				}
+				p := o.payload
+				switch w {
+				case 1:
+					verifAssume(p[3] >= 1)
+					verifAssume(p[3] <= 0x7f)
+				case 2:
+					verifAssume(p[3] >= 0x80)
+					verifAssume(p[4] >= 1)
+					verifAssume(p[4] <= 0x7f)
+				case 3:
+					verifAssume(p[3] >= 0x80)
+					verifAssume(p[4] >= 0x80)
+					verifAssume(p[5] >= 1)
+					verifAssume(p[5] <= 3)
+				}
+				copy(o.sig[:], p[3+w:3+w+64])
 			} else {
 				o.payload[3], o.payload[4] = 0x81, 0x01
 				copy(o.sig[:], o.payload[5:69])
